@@ -1,14 +1,7 @@
 """C10 and C12: W-PIPE plus life-cycle stimuli (worlds/fsm.py)"""
-from checks.registry import PIPE_COMPONENTS
+from checks.common import FSM_COMPONENTS, PIPE_COMPONENTS  # noqa: F401
 
-COMPONENTS = {
-    'real': PIPE_COMPONENTS['real'] + ['dawgie.pl.state.FSM with its deferred branches (load, reload, archive, navel gaze) and waiter threads',
-                                      'dawgie.fe.api.submit / dawgie.fe.submit Process + VerifyHandler', 'dawgie.fe.api.cmd_reset / dawgie.fe.app.schedule_reset',
-                                      'twisted.web.server.Site + dawgie.fe endpoint table (requests arrive as HTTP bytes)', 'dawgie.tools.submit.automatic / Priority',
-                                      'dawgie.db.shelve archive (rotation of the dbm files)'],
-    'stub': PIPE_COMPONENTS['stub'] + ['git (git.cmd.Git.execute answers from a script: history, HEAD, failing command chosen by the chooser)',
-                                      'compliance sub-process (reactor.spawnProcess actor: exit time and status are chooser decisions; the rules themselves are not run)'],
-}
+COMPONENTS = FSM_COMPONENTS
 
 
 def fsm(name, q, t, **cfg):
